@@ -92,6 +92,25 @@ theorem no_loop_run (P : Params) (fuel : Nat) (init : Fs) (cfg : Cfg) (h : List 
   unfold start
   exact processTree_no_hang P fuel _
 
+/-- What `no_loop` rests on, made explicit (finding F26): in the loop's counter logic
+(`genLoop`), once a pass finishes some but not all of the `total` pending items, NO sequence
+of later passes ever satisfies `done_count == total_not_done` — the loop cannot exit. So
+termination needs every pending item to finish in the first pass, which holds for the model
+(`passNodes_doneCount`) because no built-in rule overrides `Rule::require_content`; the
+harness reproduces the hang on the real `WorkerTree` with a user-defined rule. -/
+theorem on_hold_never_terminates (total d : Nat) (ds : List Nat) (h0 : 0 < d) (h1 : d < total) :
+    genLoop total total (d :: ds) = false := by
+  simp only [genLoop]
+  have h2 : min d total = d := by omega
+  rw [h2]
+  have h3 : d ≠ total := by omega
+  simp only [h3, if_false]
+  exact genLoop_stuck total ds _ (by omega)
+
+/-- non-vacuity (and the other direction): all items finishing in the first pass exits; one of
+two on hold never exits, however many passes follow -/
+example : genLoop 2 2 [2] = true ∧ genLoop 2 2 [1, 1, 0, 0, 0] = false := by decide
+
 /-- non-vacuity: a state with pending work on which `process` really runs the loop -/
 example : ∃ st, processTree wP 1 wPending = .ok st ∧ notDoneCount wPending.nodes = 3 ∧ notDoneCount st.nodes = 0 := by
   refine ⟨_, rfl, ?_, ?_⟩ <;> decide
